@@ -222,16 +222,18 @@ class FST:
         self._extract_epsilon_transitions_intersection(new_rules)
         self._extract_fst_delta_intersection(new_rules)
         self._extract_fst_epsilon_intersection(new_rules)
-        self._extract_fst_duplication_rules_intersection(new_rules)
+        self._extract_fst_duplication_rules_intersection(
+            new_rules, indexed_grammar.start_variable)
         rules = Rules(new_rules, rules.optim)
         return IndexedGrammar(rules).remove_useless_rules()
 
-    def _extract_fst_duplication_rules_intersection(self, new_rules):
+    def _extract_fst_duplication_rules_intersection(self, new_rules,
+                                                    start_variable="S"):
         for state_p in self._final_states:
             for start_state in self._start_states:
                 new_rules.append(DuplicationRule(
                     "S",
-                    str((start_state, "S", state_p)),
+                    str((start_state, start_variable, state_p)),
                     "T"))
 
     def _extract_fst_epsilon_intersection(self, new_rules):
